@@ -859,67 +859,64 @@ Theorem argmax_all_first_max r c a bo : wfx r c a ->
   exists m n, is_max m (flat (dat a)) /\ first_index m (flat (dat a)) n /\
               el (margmax a AxNone bo) 0 0 = Z.of_nat n.
 Proof.
-  intros W. pose proof (max_all r c a bo W) as Hm.
+  intros W. pose proof (max_all r c a (Some (bits a)) W) as Hm.
   destruct (argmax_from_first (flat (dat a)) _ 0 (proj1 Hm)) as [n [E F]].
-  exists (el (mmax a AxNone bo) 0 0), n. split; [exact Hm|]. split; [exact F|].
+  exists (el (mmax a AxNone (Some (bits a))) 0 0), n. split; [exact Hm|]. split; [exact F|].
   unfold margmax, el at 1. cbn [dat get nth]. rewrite E. lia.
 Qed.
 
-(* along an axis the first maximal index is returned (mod 2^bits) PROVIDED the `bits` argument
-   is at least the matrix's element width; see argmax_small_bits_refuted for the other case *)
+(* along an axis the first maximal index is returned (mod 2^bits of the result) for every `bits`
+   argument; the intermediate max(matrix, axis, bits=matrix.bits) is built with the default
+   max_bits=64, hence the hypothesis bits a <= 64 *)
 Theorem argmax_axis0_first_max r c a bo j : wfx r c a -> mrange a -> (j < c)%nat ->
-  bits a <= capb (default_bits a bo) 64 ->
+  bits a <= 64 ->
   exists m n, is_max m (col a j) /\ first_index m (col a j) n /\
               el (margmax a Ax0 bo) 0 j = Z.of_nat n mod 2 ^ bits (margmax a Ax0 bo).
 Proof.
-  intros W R Hj Hb. destruct (max_axis0 r c a bo j W Hj) as [m [Hm Em]].
+  intros W R Hj Hb. destruct (max_axis0 r c a (Some (bits a)) j W Hj) as [m [Hm Em]].
   assert (Hr : inrange m (bits a)).
   { destruct Hm as [Hin _]. pose proof (col_range a j R) as F. unfold all_inrange in F.
     rewrite Forall_forall in F. apply F, Hin. }
-  assert (Em' : el (mmax a Ax0 bo) 0 j = m).
-  { rewrite Em. apply Z.mod_small. unfold mmax, mreduce. cbn [mnew bits].
-    destruct Hr as [H0 H1]. split; [exact H0|].
-    assert (0 <= bits a) by (apply (inrange_nonneg_w m); split; assumption).
-    pose proof (pow2_mono (bits a) (capb (default_bits a bo) 64) ltac:(lia)). lia. }
+  assert (Em' : el (mmax a Ax0 (Some (bits a))) 0 j = m).
+  { rewrite Em. apply Z.mod_small. unfold mmax, mreduce. cbn [mnew bits default_bits].
+    rewrite capb_id by exact Hb. exact Hr. }
   destruct (argmax_from_first (col a j) m 0 (proj1 Hm)) as [n [E F]].
   exists m, n. split; [exact Hm|]. split; [exact F|].
   unfold margmax. rewrite (wfx_cols r c a W). rewrite el_mnew by lia. cbn [mnew bits].
   rewrite Em', E. reflexivity.
 Qed.
 Theorem argmax_axis1_first_max r c a bo i : wfx r c a -> mrange a -> (i < r)%nat ->
-  bits a <= capb (default_bits a bo) 64 ->
+  bits a <= 64 ->
   exists m n, is_max m (row a i) /\ first_index m (row a i) n /\
               el (margmax a Ax1 bo) 0 i = Z.of_nat n mod 2 ^ bits (margmax a Ax1 bo).
 Proof.
-  intros W R Hi Hb. destruct (max_axis1 r c a bo i W Hi) as [m [Hm Em]].
+  intros W R Hi Hb. destruct (max_axis1 r c a (Some (bits a)) i W Hi) as [m [Hm Em]].
   assert (Hr : inrange m (bits a)).
   { destruct Hm as [Hin _]. pose proof (row_range a i R) as F. unfold all_inrange in F.
     rewrite Forall_forall in F. apply F, Hin. }
-  assert (Em' : el (mmax a Ax1 bo) 0 i = m).
-  { rewrite Em. apply Z.mod_small. unfold mmax, mreduce. cbn [mnew bits].
-    destruct Hr as [H0 H1]. split; [exact H0|].
-    assert (0 <= bits a) by (apply (inrange_nonneg_w m); split; assumption).
-    pose proof (pow2_mono (bits a) (capb (default_bits a bo) 64) ltac:(lia)). lia. }
+  assert (Em' : el (mmax a Ax1 (Some (bits a))) 0 i = m).
+  { rewrite Em. apply Z.mod_small. unfold mmax, mreduce. cbn [mnew bits default_bits].
+    rewrite capb_id by exact Hb. exact Hr. }
   destruct (argmax_from_first (row a i) m 0 (proj1 Hm)) as [n [E F]].
   exists m, n. split; [exact Hm|]. split; [exact F|].
   unfold margmax. rewrite (wfx_rows r c a W). rewrite el_mnew by lia. cbn [mnew bits].
   rewrite Em', E. reflexivity.
 Qed.
 
-(* with bits < element width the code compares the TRUNCATED maximum with the elements:
-   column [2;3] (2-bit elements), bits=1: the first maximal index is 1, the code yields 0 *)
-Theorem argmax_small_bits_refuted :
+(* residue of the same mechanism: elements wider than 64 bits (only possible with max_bits > 64) are
+   compared with a maximum truncated to the reduction's default max_bits=64 *)
+Theorem argmax_wide_elements_refuted :
   exists a bo j m n, wfx 2 1 a /\ mrange a /\ is_max m (col a j) /\ first_index m (col a j) n /\
      el (margmax a Ax0 bo) 0 j <> Z.of_nat n mod 2 ^ bits (margmax a Ax0 bo).
 Proof.
-  exists (MkMx 2 64 [[2]; [3]]), (Some 1), 0%nat, 3, 1%nat.
+  exists (MkMx 65 100 [[2 ^ 64]; [2 ^ 64 + 1]]), None, 0%nat, (2 ^ 64 + 1), 1%nat.
   split; [repeat split; cbn; try lia; repeat constructor|].
   split.
   { intros i j. unfold el, get, inrange. cbn [dat bits].
     destruct i as [|[|i]]; cbn [nth].
     1,2: destruct j as [|j]; cbn [nth]; [lia|destruct j; cbn; lia].
     destruct i; cbn [nth]; destruct j; cbn; lia. }
-  assert (C : col (MkMx 2 64 [[2]; [3]]) 0 = [2; 3]) by reflexivity. rewrite C.
+  assert (C : col (MkMx 65 100 [[2 ^ 64]; [2 ^ 64 + 1]]) 0 = [2 ^ 64; 2 ^ 64 + 1]) by reflexivity. rewrite C.
   split; [split; [cbn; tauto|intros x [E|[E|[]]]; lia]|].
   split; [split; [cbn; lia|split; [reflexivity|]]; intros [|n'] H; cbn; lia|].
   vm_compute. congruence.
@@ -1005,14 +1002,22 @@ Qed.
 (* slice bounds within [-n, n] are normalised like Python's; None means 0 / n *)
 Definition py_bound (n : Z) (dflt : Z) (o : option Z) : Z :=
   match o with None => dflt | Some z => from_end n z end.
-Theorem key_get_slice n s e st : 0 < n ->
+Theorem key_get_slice n s e st : 0 < n -> step_accepted st = true ->
   (forall z, s = Some z -> - n <= z <= n) -> (forall z, e = Some z -> - n <= z <= n) ->
   key_get n (KSl s e st) = Some (py_bound n 0 s, py_bound n n e).
 Proof.
-  intros Hn Hs He. unfold key_get, sl_bounds, step_accepted, chk, py_bound, neg_norm, from_end. cbn [negb].
+  intros Hn Hst Hs He. unfold key_get. rewrite Hst. unfold sl_bounds, chk, py_bound, neg_norm, from_end.
   destruct s as [s|]; destruct e as [e|];
     try (specialize (Hs s eq_refl)); try (specialize (He e eq_refl)); bcases.
 Qed.
+
+(* a step other than None / 1 is rejected, never silently ignored *)
+Theorem key_get_step_rejected n s e z : z <> 1 -> key_get n (KSl s e (Some z)) = None.
+Proof. intros Hz. unfold key_get, step_accepted. replace (z =? 1) with false by lia. reflexivity. Qed.
+
+(* __setitem__ resolves int keys exactly like __getitem__ (m[-1, c] = v addresses the last row) *)
+Theorem key_set_int n z : key_set n (KInt z) = key_get n (KInt z).
+Proof. reflexivity. Qed.
 
 (* the selected block: element (i, j) of the result is element (rs+i, cs+j) *)
 Theorem getitem_block r c a kr kc rs re cs ce i j : wfx r c a -> mrange a -> bits a <= maxb a ->
@@ -1032,30 +1037,30 @@ Proof.
     rewrite (Nat.add_comm i), (Nat.add_comm j). reflexivity.
 Qed.
 
-(* __setitem__ builds slice(i, i+1) before normalising, so the int index -1 in a tuple key gives the
-   empty slice (n-1, 0) and the assignment raises: signature 'setitem:neg1-tuple-index-raises' *)
-Theorem setitem_neg1_refuted :
-  exists a x, wfx 2 2 a /\ key_get 2 (KInt (-1)) = Some (1, 2) /\ msetitem_s a (KInt (-1)) (KInt 0) x = None.
+(* put with a row-vector Matrix of values behaves like put with the list of its elements *)
+Theorem put_matrix_value_as_list a ind v mode : nth 0 (dat v) [] <> [] ->
+  mput_mat a ind v mode = mput_list a ind (nth 0 (dat v) []) mode.
 Proof.
-  exists (MkMx 4 64 [[1; 2]; [3; 4]]), 9. split; [repeat split; cbn; try lia; repeat constructor|].
-  split; reflexivity.
+  intros Hne. unfold mput_mat, mput_list. destruct (nth 0 (dat v) []) as [|x xs] eqn:E; [congruence|].
+  generalize (Z.of_nat (rows_of a * cols_of a)) as count. intros count.
+  assert (Hf : forall k, put_val_mat (x :: xs) k = put_val_list (x :: xs) k).
+  { intros k. unfold put_val_mat, put_val_list. f_equal.
+    destruct (Z.of_nat k >=? Z.of_nat (length (x :: xs))) eqn:E1;
+      destruct (length (x :: xs) <=? k)%nat eqn:E2; try reflexivity.
+    - apply Nat.leb_gt in E2. lia.
+    - apply Nat.leb_le in E2. lia. }
+  generalize 0%nat as k. revert a. induction ind as [|ix rest IH]; intros a0 k; cbn [put_loop]; [reflexivity|].
+  destruct (put_ix count mode ix); [|reflexivity]. rewrite Hf.
+  destruct (put_val_list (x :: xs) k); [apply IH|reflexivity].
 Qed.
 
-(* put with a row-vector Matrix v compares the value index with count of SELF instead of v.columns:
-   signature 'put:matrix-v-bound-uses-self-count' *)
-Theorem put_matrix_value_refuted :
-  exists a v ind, mput_list a ind (nth 0 (dat v) []) PRaise <> mput_mat a ind v PRaise.
-Proof.
-  exists (MkMx 4 64 [[0]]), (MkMx 4 64 [[1; 2; 3]]), [0; 0]. vm_compute. congruence.
-Qed.
-
-(* dot(1x1 Matrix, Matrix) raises although dot(Matrix, 1x1 Matrix) is the scalar product:
-   signature 'dot:1x1-first-raises' *)
-Theorem dot_1x1_first_refuted :
-  exists a b, mdot a b = None /\ mdot b a <> None.
-Proof.
-  exists (MkMx 3 64 [[2]]), (MkMx 4 64 [[1; 2]; [3; 4]]). vm_compute. split; [reflexivity|congruence].
-Qed.
+(* dot with a 1x1 operand is the scalar product, whichever side the 1x1 operand is on *)
+Theorem dot_1x1_first a b : is11 a = true -> is11 b = false ->
+  mdot a b = Some (mscal b (bits a) (el a 0 0)).
+Proof. intros Ha Hb. unfold mdot. rewrite Ha, Hb. reflexivity. Qed.
+Theorem dot_1x1_second a b : is11 a = false -> is11 b = true ->
+  mdot a b = Some (mscal a (bits b) (el b 0 0)).
+Proof. intros Ha Hb. unfold mdot. rewrite Ha, Hb. reflexivity. Qed.
 
 (* ------------------------------------------------------------------ stacking *)
 Lemma map_seq_offset {A} (f : nat -> A) n : forall k, map f (seq k n) = map (fun x => f (k + x)%nat) (seq 0 n).
